@@ -1544,10 +1544,15 @@ class Crystal(object):
         # run through list to ensure that all k-points are inside the BZ
         Gmin = min(np.dot(G, G) for G in self.BZG)
         for k in kptfull:
-            if np.dot(k, k) >= Gmin:
+            # repeat until no G moves the point: a single pass can leave points of skewed lattices outside the BZ
+            # (each shift strictly reduces |k|, so this terminates)
+            moved = np.dot(k, k) >= Gmin
+            while moved:
+                moved = False
                 for G in self.BZG:
                     if np.dot(k, G) > np.dot(G, G):
                         k -= 2. * G
+                        moved = True
         return kptfull
 
     def reducekptmesh(self, kptfull, threshold=None):
